@@ -9,6 +9,7 @@ import (
 	"io"
 	"math"
 	"net/http"
+	"os"
 	"runtime/debug"
 	"sort"
 	"strings"
@@ -32,6 +33,10 @@ import (
 func init() {
 	log.SetOutput(io.Discard)
 	log.SetLevel(log.PanicLevel)
+	if os.Getenv("VERIF_LOGRUS") != "" {
+		log.SetOutput(os.Stderr)
+		log.SetLevel(log.DebugLevel)
+	}
 	log.StandardLogger().ExitFunc = func(code int) { panic(exitSentinel{code}) }
 }
 
